@@ -34,6 +34,13 @@ package corr
 // LastPacketReceivedTimestamp is a clock reading, printed as its distance from the epoch — so the model, whose clock
 // starts in 2000, has nothing to learn.  The class sticks to traffic without LSR/DLSR/DLRR round trips: a round-trip
 // time is the difference between a clock reading and an NTP timestamp, which cannot express most of these epochs.
+// The ambient may make the transport below SYNCHRONOUS (`nest=N`, an option private to this component; class `reenter`
+// and a fifth of the ordinary cases): an in-process loop-back transport delivers the peer's answer while Write is still
+// on the stack.  The up to N ops directly after an `rtcpOut` that are adv / get / rtcpIn / rtcpInErr / rtcpInShort run
+// on the same goroutine INSIDE the bottom RTCP writer, before it returns (through the chain's neighbours too).  "At
+// every query the counts equal a recount of the packets that passed through" and RTT "from the most recent matching
+// report": the packet handed on has passed through, so the outputs are those of the ops in sequence — the model has
+// nothing to learn.  Class `reenter`: SR / XR-RRTR / NACK written, queried and answered (LSR / LRR of that report) at once.
 // a=M: the attributes the *caller* passes: nil | fresh | stale (the map of the previous call,
 // still holding that call's parse cache).  The inner reader always returns a new empty map.
 // PKT: SR:ssrc:ntp:pc:oc:B  RR:ssrc:B  (B: `-` or blocks `ssrc/fl/tl/lsn/jit/lsr/dlsr` joined by +)
@@ -369,6 +376,14 @@ func c19run(t *testing.T, ops []string, o *Out) {
 		}
 		epoch = &e
 	}
+	nest := 0
+	if o.Amb != nil && o.Amb.Opts["nest"] != "" {
+		n, err := strconv.Atoi(o.Amb.Opts["nest"])
+		if err != nil || n < 0 {
+			panic("bad nest " + o.Amb.Opts["nest"])
+		}
+		nest = n
+	}
 	lf := logging.NewDefaultLoggerFactory()
 	lf.DefaultLogLevel = logging.LogLevelDisabled
 	f, err := stats.NewInterceptor(
@@ -407,7 +422,20 @@ func c19run(t *testing.T, ops []string, o *Out) {
 		return n, o.Bottom(interceptor.Attributes{}), nil
 	}
 	rtcpR := icpt.BindRTCPReader(interceptor.RTCPReaderFunc(inner))
-	rtcpW := icpt.BindRTCPWriter(interceptor.RTCPWriterFunc(func(p []rtcp.Packet, _ interceptor.Attributes) (int, error) { return len(p), nil }))
+	// nest=N: the transport below is synchronous — the up to N ops that follow an rtcpOut run inside the bottom writer
+	var nested []string
+	var step func(op string)
+	runNested := func() {
+		qs := nested
+		nested = nil
+		for _, q := range qs {
+			step(q)
+		}
+	}
+	rtcpW := icpt.BindRTCPWriter(interceptor.RTCPWriterFunc(func(p []rtcp.Packet, _ interceptor.Attributes) (int, error) {
+		runNested()
+		return len(p), nil
+	}))
 	lw := map[uint32]interceptor.RTPWriter{}
 	rr := map[uint32]interceptor.RTPReader{}
 	var last interceptor.Attributes
@@ -429,7 +457,7 @@ func c19run(t *testing.T, ops []string, o *Out) {
 	buf := make([]byte, 4096)
 	defer func() { _ = icpt.Close() }()
 
-	for _, op := range ops {
+	step = func(op string) {
 		name, m := kv(op)
 		if name != "adv" && !strings.HasPrefix(name, "rtpIn") && !strings.HasPrefix(name, "rtcpIn") {
 			now += waitNs
@@ -441,7 +469,7 @@ func c19run(t *testing.T, ops []string, o *Out) {
 			rate, ok2 := c19u(m["rate"], 32)
 			if !(ok1 && ok2) || rate == 0 {
 				o.P("bad-op")
-				continue
+				return
 			}
 			info := &interceptor.StreamInfo{SSRC: uint32(ssrc), ClockRate: uint32(rate)}
 			if id, ok := c19u(m["tcc"], 8); ok && id >= 1 && name == "bindL" { // a negotiated transport-cc extension (read by neighbours only)
@@ -464,7 +492,7 @@ func c19run(t *testing.T, ops []string, o *Out) {
 			w := lw[uint32(via)]
 			if !ok || !ok2 || w == nil {
 				o.P("bad-op")
-				continue
+				return
 			}
 			_, _ = w.Write(h, make([]byte, pl), o.Attrs(interceptor.Attributes{}))
 		case "rtpIn":
@@ -474,12 +502,12 @@ func c19run(t *testing.T, ops []string, o *Out) {
 			at, ok3 := callerAttr(m["a"])
 			if !ok || !ok2 || !ok3 || rd == nil {
 				o.P("bad-op")
-				continue
+				return
 			}
 			hb, err := h.Marshal()
 			if err != nil {
 				o.P("bad-op")
-				continue
+				return
 			}
 			pending, pendingErr = o.ShapeRaw(append(hb, make([]byte, pl)...)), false // the case's wire shapes (P bit, padding-only …)
 			_, _, _ = rd.Read(buf, at)
@@ -493,7 +521,7 @@ func c19run(t *testing.T, ops []string, o *Out) {
 			}
 			if !ok || !ok2 || rd == nil || n >= 12 {
 				o.P("bad-op")
-				continue
+				return
 			}
 			pending, pendingErr = make([]byte, n), name == "rtpInErr"
 			_, _, _ = rd.Read(buf, interceptor.Attributes{})
@@ -501,13 +529,13 @@ func c19run(t *testing.T, ops []string, o *Out) {
 			fs := strings.Fields(op)
 			if len(fs) < 3 || !strings.HasPrefix(fs[1], "a=") {
 				o.P("bad-op")
-				continue
+				return
 			}
 			at, ok := callerAttr(fs[1][2:])
 			pk, ok2 := c19pkts(fs[2:])
 			if !ok || !ok2 {
 				o.P("bad-op")
-				continue
+				return
 			}
 			raw, err := rtcp.Marshal(pk)
 			if err == nil {
@@ -515,7 +543,7 @@ func c19run(t *testing.T, ops []string, o *Out) {
 			}
 			if err != nil || len(raw) > len(buf) {
 				o.P("bad-op")
-				continue
+				return
 			}
 			pending, pendingErr = raw, false
 			_, _, _ = rtcpR.Read(buf, at)
@@ -527,7 +555,7 @@ func c19run(t *testing.T, ops []string, o *Out) {
 			}
 			if !ok || n >= 4 {
 				o.P("bad-op")
-				continue
+				return
 			}
 			pending, pendingErr = make([]byte, n), name == "rtcpInErr"
 			_, _, _ = rtcpR.Read(buf, interceptor.Attributes{})
@@ -535,21 +563,21 @@ func c19run(t *testing.T, ops []string, o *Out) {
 			pk, ok := c19pkts(strings.Fields(op)[1:])
 			if !ok {
 				o.P("bad-op")
-				continue
+				return
 			}
 			_, _ = rtcpW.Write(pk, interceptor.Attributes{})
 		case "adv":
 			d, err := strconv.ParseInt(m["ns"], 10, 64)
 			if err != nil {
 				o.P("bad-op")
-				continue
+				return
 			}
 			waitNs += d
 		case "get":
 			ssrc, ok := c19u(m["ssrc"], 32)
 			if !ok {
 				o.P("bad-op")
-				continue
+				return
 			}
 			o.P("%s", c19statsAt(getter.Get(uint32(ssrc)), epoch))
 		case "close":
@@ -558,6 +586,30 @@ func c19run(t *testing.T, ops []string, o *Out) {
 			o.P("bad-op")
 		}
 	}
+	for i := 0; i < len(ops); i++ {
+		if name, _ := kv(ops[i]); nest > 0 && name == "rtcpOut" {
+			j := i + 1
+			for j < len(ops) && j-i-1 < nest && c19nestable(ops[j]) {
+				j++
+			}
+			nested = ops[i+1 : j]
+			step(ops[i])
+			runNested() // the bottom writer was not reached (an op the interpreter refuses): in sequence
+			i = j - 1
+			continue
+		}
+		step(ops[i])
+	}
+}
+
+// c19nestable: the ops a synchronous transport can cause while the RTCP Write is still on the stack — the peer's
+// answer arrives (rtcpIn…), time passes (adv), the application polls the statistics (get).
+func c19nestable(op string) bool {
+	switch name, _ := kv(op); name {
+	case "adv", "get", "rtcpIn", "rtcpInErr", "rtcpInShort":
+		return true
+	}
+	return false
 }
 
 // ---------------------------------------------------------------------------------------
@@ -576,6 +628,7 @@ type c19gen struct {
 	srs   []uint64 // NTP times of SRs written
 	rrts  []uint64 // NTP times of RRTR blocks written
 	smallPl bool   // incoming packets short enough for a one-octet padding count
+	re      bool   // class `reenter`: reports written are often answered at once (answered)
 }
 
 func (g *c19gen) add(format string, a ...any) { g.ops = append(g.ops, fmt.Sprintf(format, a...)) }
@@ -889,12 +942,62 @@ func (g *c19gen) get() {
 	g.add("get ssrc=%d", s)
 }
 
+// answered emits what a synchronous (loop-back) transport makes of a report: the write of SR / XR-RRTR / NACK …,
+// [time passes], the application's query, the peer's RR / XR-DLRR that answers the report just written (LSR / LRR of
+// the most recent SR / RRTR), a query.  With `nest=` the interpreter runs all of that inside the bottom writer.
+func (g *c19gen) answered() {
+	r := g.r
+	switch r.Intn(5) {
+	case 0:
+		g.compound(true, []string{"SR"})
+	case 1:
+		g.compound(true, []string{"XR", "XR", "SR"})
+	case 2:
+		g.compound(true, []string{"SR", "SR", "NACK", "PLI", "FIR"})
+	case 3:
+		g.compound(true, []string{"NACK", "NACK", "PLI", "FIR"})
+	default:
+		g.compound(true, c19kinds)
+	}
+	if r.Bool() {
+		g.adv("")
+	}
+	if r.Chance(3, 4) {
+		g.get()
+	}
+	srs, rrts := g.srs, g.rrts
+	if len(srs) > 0 {
+		g.srs = srs[len(srs)-1:]
+	}
+	if len(rrts) > 0 {
+		g.rrts = rrts[len(rrts)-1:]
+	}
+	g.compound(false, []string{"RR", "RR", "XR", "XR", "SR"}) // (incoming packets are not remembered in g.srs / g.rrts)
+	g.srs, g.rrts = srs, rrts
+	if r.Bool() {
+		g.get()
+	}
+}
+
 // c19gencase: the classes of c19genplain, a quarter of them with wire shapes on the incoming RTP, and the class
 // `padding`: incoming-RTP-heavy traffic (counts / wrap / mixed / lifecycle) of short packets, all of them shaped.
 //
 // Class `chain` (and a quarter of the other cases): the stats interceptor as a member of a chain, see the head of the file.
+// Class `reenter` (and `nest=` on a fifth of the ordinary cases): the synchronous transport, see the head of the file.
 func c19gencase(r *Rng, tier string, idx int) Case {
-	k := idx % 11
+	k := idx % 12
+	if k == 11 { // rtt, dlrr, counts, compound, mixed: RTCP written and answered
+		cs := c19genplainRe(r, tier, r.Pick(2, 2, 3, 3, 0, 4, 7), false, true)
+		cs.Class = "reenter"
+		nest := "nest=" + strconv.Itoa(r.Pick(1, 2, 3, 6))
+		if r.Bool() {
+			cs.Ops = c19chain(r, cs.Ops, r.Chance(2, 3), "")
+			cs.Ops[0] = ambWith(cs.Ops[0], nest)
+		} else {
+			cs.Ops = append([]string{ambWith(ambOp("", "", false, false, false, false), nest)}, cs.Ops...)
+		}
+		return cs
+	}
 	if k == 10 { // counts / wrap (jitter): traffic that knows the clock through differences of its readings only
 		cs := c19genplain(r, tier, r.Pick(0, 1, 1), false)
 		cs.Class = "epoch"
@@ -917,10 +1020,14 @@ func c19gencase(r *Rng, tier string, idx int) Case {
 		cs.Ops = c19chain(r, cs.Ops, true, "")
 		return cs
 	}
-	cs := c19genplain(r, tier, idx/11*8+k, false)
+	cs := c19genplain(r, tier, idx/12*8+k, false)
 	shapes := ""
 	if r.Chance(1, 4) {
 		shapes = ambShapes(r)
+	}
+	if r.Chance(1, 5) { // any sequence of ops gives the same outputs over a synchronous transport
+		shapes = ambWith(shapes, "nest="+strconv.Itoa(r.Pick(1, 2, 3, 6)))
+		shapes = strings.TrimPrefix(shapes, " ")
 	}
 	if r.Chance(1, 4) {
 		cs.Ops = c19chain(r, cs.Ops, r.Chance(2, 3), shapes)
@@ -976,9 +1083,13 @@ func c19chain(r *Rng, ops []string, hdr bool, shapes string) []string {
 }
 
 func c19genplain(r *Rng, tier string, idx int, smallPl bool) Case {
+	return c19genplainRe(r, tier, idx, smallPl, false)
+}
+
+func c19genplainRe(r *Rng, tier string, idx int, smallPl bool, re bool) Case {
 	classes := []string{"counts", "wrap", "rtt", "dlrr", "compound", "clock", "lifecycle", "mixed"}
 	cl := classes[idx%len(classes)]
-	g := &c19gen{r: r, smallPl: smallPl, now: c19Start, local: map[uint32]bool{}, rem: map[uint32]bool{}, rate: map[uint32]uint32{},
+	g := &c19gen{r: r, smallPl: smallPl, re: re, now: c19Start, local: map[uint32]bool{}, rem: map[uint32]bool{}, rate: map[uint32]uint32{},
 		seq: map[uint32]int{}, ts: map[uint32]uint32{}}
 	cand := []uint32{1, 2, 3, 0x80000001, 0xFFFFFFFF, 0, 65536, uint32(r.U64())}
 	np := r.Range(2, 5)
@@ -1028,6 +1139,11 @@ func c19genplain(r *Rng, tier string, idx int, smallPl bool) Case {
 	}
 	n := r.Range(8, 45)
 	for i := 0; i < n; i++ {
+		if g.re && r.Chance(1, 3) {
+			g.answered()
+			i += 2
+			continue
+		}
 		switch cl {
 		case "counts":
 			switch r.Intn(8) {
